@@ -20,7 +20,7 @@ for e in kf:
     if e['status']=='known':
         known_rows.append(f"* **{e['property']}** `{e['signature']}` — {e['what']}")
 seeds=["| seed | round | what it needs to manifest | detected by | signature(s) (first few) | strengthened because of it |","|---|---|---|---|---|---|"]
-nseed={1:0,2:0,3:0}; own=0; missed=[]
+nseed={}; own=0; missed=[]
 for m in sorted(glob.glob('/verif/seeded/*/meta.json')):
     j=json.load(open(m))
     r=j.get('round',1); nseed[r]=nseed.get(r,0)+1
@@ -31,7 +31,8 @@ for m in sorted(glob.glob('/verif/seeded/*/meta.json')):
     seeds.append(f"| `{j['id']}` | {r} | {j['needs_to_manifest']} | {', '.join(j['detected_by']) or 'NOT DETECTED'} | {sig} | {j.get('strengthened','')} |")
 total=sum(nseed.values())
 seeds.append("")
-seeds.append(f"{total} seeded defects kept ({nseed.get(1,0)} first round, {nseed.get(2,0)} second, {nseed.get(3,0)} third); {own} are caught by the check of the property they were written against, the others by the check named in the table" + (f"; not detected by any check: {', '.join(missed)}" if missed else "; every one is detected by at least one check") + ".")
+per_round=", ".join(f"round {r}: {n}" for r,n in sorted(nseed.items()))
+seeds.append(f"{total} seeded defects kept ({per_round}); {own} are caught by the check of the property they were written against, the others by the check named in the table" + (f"; not detected by any check: {', '.join(missed)}" if missed else "; every one is detected by at least one check") + ".")
 man=json.load(open('/verif/MANIFEST.json'))
 na=man.get('not_applicable',[])
 na_txt="\n".join(f"* {x['property_id']}: {x['reason']}" for x in na) or "None. All 20 properties are decided by E1/E2 as above."
